@@ -23,7 +23,7 @@ static bool g_in_request = false;
 static void exit_tripwire() {
     if (g_in_request) {
         // some path called exit() while serving a request: make it visible
-        std::fputs("\n{\"fatal\":\"exit-called-inside-request\"}\n", stdout);
+        std::fputs("\n@@R {\"fatal\":\"exit-called-inside-request\"}\n", stdout);
         std::fflush(stdout);
     }
 }
@@ -80,6 +80,9 @@ int main(int argc, char** argv) {
             cJSON_Delete(req);
         }
         out.end_obj();
+        // the library occasionally prints to stdout itself: replies carry a marker at line start
+        std::cout.flush();
+        std::fputs("\n@@R ", stdout);
         std::fwrite(out.s.data(), 1, out.s.size(), stdout);
         std::fputc('\n', stdout);
         std::fflush(stdout);
